@@ -22,7 +22,19 @@ pub enum IAct {
     /// 65536 x (a message on the third channel, reset): wraps 16-bit reset generation counters
     /// even when resets without intervening traffic are skipped
     ResetStorm,
+    /// a complete message for one of the STANDARDISED registered parameter numbers on channel slot
+    /// (index into SPECIALS): code that gives such a number a meaning of its own (MPE configuration
+    /// on the manager channels 0 / 15, the RPN null function) may reach across channels
+    Special(u8, u8),
 }
+
+/// (label, Control Change sequence): MPE Configuration Message with the largest zone, the RPN null
+/// function, pitch bend sensitivity
+pub const SPECIALS: [(&str, [(u8, u8); 3]); 3] = [
+    ("RPN 6 (MPE configuration) = 15", [(101, 0), (100, 6), (6, 15)]),
+    ("RPN null, then a data entry", [(101, 127), (100, 127), (6, 1)]),
+    ("RPN 0 (pitch bend sensitivity) = 2", [(101, 0), (100, 0), (6, 2)]),
+];
 
 pub struct IsoState<S: Scanner> {
     pub m: S,
@@ -48,9 +60,13 @@ pub struct IsoSys<S: Scanner> {
     /// judge `reset() == new()` on the multi-channel scanner after every reset (reported under C17)
     pub check_reset: bool,
     pub timeout: u64,
+    /// milliseconds per `Tick` (1 unless a long timeout is explored on a coarse clock)
+    pub tick_ms: u64,
     pub cap: u64,
     pub ctrls: Vec<u8>,
     pub sys_msgs: Vec<(u8, u8, u8)>,
+    /// (slot, index into SPECIALS) offered within one step of the initial state
+    pub specials: Vec<(u8, u8)>,
     _p: std::marker::PhantomData<S>,
 }
 
@@ -88,9 +104,11 @@ impl<S: Scanner> IsoSys<S> {
             storm: false,
             check_reset: false,
             timeout,
+            tick_ms: 1,
             cap: crate::iso::cap_for(timeout),
             ctrls,
             sys_msgs,
+            specials: Vec::new(),
             _p: std::marker::PhantomData,
         }
     }
@@ -116,7 +134,7 @@ impl<S: Scanner> System for IsoSys<S> {
         self.pid.to_string()
     }
     fn name(&self) -> String {
-        format!("{} isolation product [a={}, b={}, third={}{}, timeout={}ms, {} controllers, {} system messages]", S::NAME, self.chans[0], self.chans[1], self.chans[2], if self.triple { " (all three compared with solo scanners)" } else { " (multi-channel scanner only)" }, if self.timeout >= (1 << 40) { "inf".to_string() } else { self.timeout.to_string() }, self.ctrls.len(), self.sys_msgs.len())
+        format!("{} isolation product [a={}, b={}, third={}{}, timeout={}ms, tick={}ms, {} controllers, {} system messages]", S::NAME, self.chans[0], self.chans[1], self.chans[2], if self.triple { " (all three compared with solo scanners)" } else { " (multi-channel scanner only)" }, if self.timeout >= (1 << 40) { "inf".to_string() } else { self.timeout.to_string() }, self.tick_ms, self.ctrls.len(), self.sys_msgs.len())
     }
     fn init(&self) -> IsoState<S> {
         set_clock(0);
@@ -126,6 +144,11 @@ impl<S: Scanner> System for IsoSys<S> {
         self.actions(s, out);
         if self.storm && depth <= STORM_DEPTH + 2 {
             out.push(IAct::ResetStorm);
+        }
+        if depth <= 1 {
+            for &(slot, k) in &self.specials {
+                out.push(IAct::Special(slot, k));
+            }
         }
         if S::POLLS && depth <= crate::polling_pause_depth() {
             for p in [(1u64 << 32) - 2, 1 << 32] {
@@ -213,7 +236,21 @@ impl<S: Scanner> System for IsoSys<S> {
                     obs = h64(&("poll", c, t));
                 }
             }
-            IAct::Tick => n.now += 1,
+            IAct::Special(slot, k) => {
+                let c = self.chans[*slot as usize];
+                for &(ctrl, val) in SPECIALS[*k as usize].1.iter() {
+                    let msg = cc(c, ctrl, val);
+                    set_clock(s.now);
+                    let om = n.m.feed_msg(&msg);
+                    let solo = if *slot == 0 { &mut n.a } else { &mut n.b };
+                    set_clock(s.now);
+                    let os = solo.feed_msg(&msg);
+                    if os != om {
+                        v.push(self.vio("same-as-solo-scanner", "feed-standardised-rpn", || format!("interleaved stream on channels {:?}: within {} on channel {}, CC #{} ={} returned {:?}; a scanner fed only channel {}'s inputs returned {:?}", &self.chans, SPECIALS[*k as usize].0, c, ctrl, val, om, c, os)));
+                    }
+                }
+            }
+            IAct::Tick => n.now += self.tick_ms,
             IAct::Pause(p) => n.now += *p,
             IAct::Reset => {
                 n.m.reset_all();
@@ -254,6 +291,8 @@ impl<S: Scanner> System for IsoSys<S> {
             IAct::Cc(0, ..) => 0,
             IAct::Cc(1, ..) => 1,
             IAct::Cc(..) => 2,
+            IAct::Special(0, _) => 0,
+            IAct::Special(..) => 1,
             IAct::Sys(..) => 3,
             IAct::Poll(_) => 4,
             IAct::Tick | IAct::Pause(_) => 5,
@@ -269,6 +308,7 @@ impl<S: Scanner> System for IsoSys<S> {
             IAct::Pause(p) => format!("pause:{}", p),
             IAct::Reset => "reset".to_string(),
             IAct::ResetStorm => "resetstorm".to_string(),
+            IAct::Special(slot, k) => format!("special:{}:{}", self.chans[*slot as usize], k),
         }
     }
     fn rust_preamble(&self) -> String {
@@ -279,7 +319,8 @@ impl<S: Scanner> System for IsoSys<S> {
             IAct::Cc(slot, c, v) => format!("println!(\"{{:?}}\", scanner.feed(&helgoboss_midi::test_util::control_change({}, {}, {})));", self.chans[*slot as usize], c, v),
             IAct::Sys(s, a, b) => format!("println!(\"{{:?}}\", scanner.feed(&helgoboss_midi::test_util::short({}, {}, {})));", s, a, b),
             IAct::Poll(slot) => format!("println!(\"{{:?}}\", scanner.poll(helgoboss_midi::test_util::channel({})));", self.chans[*slot as usize]),
-            IAct::Tick => "clock += 1; helgoboss_midi::verif_hooks::set_now_millis(clock);".to_string(),
+            IAct::Tick => format!("clock += {}; helgoboss_midi::verif_hooks::set_now_millis(clock);", self.tick_ms),
+            IAct::Special(slot, k) => format!("for (n, v) in {:?} {{ println!(\"{{:?}}\", scanner.feed(&helgoboss_midi::test_util::control_change({}, n, v))); }} // {}", SPECIALS[*k as usize].1, self.chans[*slot as usize], SPECIALS[*k as usize].0),
             IAct::Pause(p) => format!("clock += {}; helgoboss_midi::verif_hooks::set_now_millis(clock);", p),
             IAct::Reset => "scanner.reset();".to_string(),
             IAct::ResetStorm => format!("for _ in 0..65536 {{ scanner.feed(&helgoboss_midi::test_util::note_on({}, 1, 1)); scanner.reset(); }}", self.chans[2]),
@@ -329,6 +370,11 @@ fn run_for<S: Scanner>(chk: &Check, tier: Tier, timeouts: &[u64]) {
         for &t in timeouts {
             let mut sys = IsoSys::<S>::new(a, b, t, tier.thorough());
             sys.storm = (a, b) == pairs(tier)[0];
+            if sys.storm && !S::contributes(0) {
+                // standardised RPNs on the pair (0, 8): channel 0 is an MPE manager channel. The polling
+                // product is large, so the quick tier offers only the MPE configuration message there.
+                sys.specials = if S::POLLS && !tier.thorough() { vec![(0, 0)] } else { vec![(0, 0), (0, 1), (0, 2), (1, 0), (1, 1), (1, 2)] };
+            }
             let out = xs::explore(&sys, &Limits::default());
             engine::record(chk, &sys, &out, None);
         }
@@ -416,11 +462,21 @@ fn random_16ch<S: Scanner>(chk: &Check, seed: u64, steps: u64, timeout: u64) -> 
 
 pub fn run_c15(chk: &Check, tier: Tier) {
     chk.rule("for each unordered channel pair {a,b} (quick: the 8 pairs {c,c+8} plus 6 adjacent/extreme pairs; thorough: all 120) and each of the three scanners: reachability fixpoint of the triple (M fed everything, A fed only a, B fed only b) under contributing Control Changes with a distinct value per channel, system messages F0-FF whose data bytes look like (N)RPN/14-bit traffic (shown to M only), traffic and polls on a third channel (M only), polls of a and b, 1 ms ticks, reset; on every transition M's report for a channel equals the solo scanner's and carries that channel; system messages report nothing. The product is symmetric in a and b, so unordered pairs cover ordered ones. In addition, for a few channel TRIPLES (quick: (0,8,15) and (7,8,9); thorough: six) the product of M with three solo scanners, all three channels active at once");
-    chk.assume("per-channel byte domain of one value (leakage shows as a foreign value); polling scanner with timeout 2 ms (and 0 ms in the thorough tier)");
+    chk.assume("per-channel byte domain of one value (leakage shows as a foreign value); polling scanner with timeout 2 ms (and 0 ms in the thorough tier), plus one pair (eight in thorough) with a timeout of 1 s on a 250 ms clock; complete messages for three standardised RPNs (MPE configuration, null, pitch bend sensitivity) are offered as single actions within one step of the initial state in the products of the pair (0, 8) (polling scanner, quick tier: the MPE configuration message on channel 0 only)");
     run_for::<helgoboss_midi::ControlChange14BitMessageScanner>(chk, tier, &[0]);
     run_for::<helgoboss_midi::ParameterNumberMessageScanner>(chk, tier, &[0]);
     #[cfg(feature = "polling")]
     run_for::<helgoboss_midi::PollingParameterNumberMessageScanner>(chk, tier, if tier.thorough() { &[2, 0] } else { &[2] });
+    #[cfg(feature = "polling")]
+    {
+        // a timeout of one second (where whole-second shortcuts start to apply) on a 250 ms clock
+        for &(a, b) in pairs(tier).iter().take(if tier.thorough() { 8 } else { 1 }) {
+            let mut sys = IsoSys::<helgoboss_midi::PollingParameterNumberMessageScanner>::new(a, b, 1000, false);
+            sys.tick_ms = 250;
+            let out = xs::explore(&sys, &Limits::default());
+            engine::record(chk, &sys, &out, None);
+        }
+    }
     run_triples::<helgoboss_midi::ControlChange14BitMessageScanner>(chk, tier, 0);
     run_triples::<helgoboss_midi::ParameterNumberMessageScanner>(chk, tier, 0);
     #[cfg(feature = "polling")]
